@@ -395,6 +395,7 @@ func sink(c fiber.Ctx) error {
 // a chunk-size line.
 func declaredBody(raw []byte) uint64 {
 	var worst uint64
+	chunked := bytes.Contains(raw, []byte("chunked"))
 	for i := 0; i < len(raw); i++ {
 		if i > 0 && raw[i-1] != '\n' && raw[i-1] != ' ' {
 			continue
@@ -402,7 +403,13 @@ func declaredBody(raw []byte) uint64 {
 		// decimal after "content-length: ", hex on a line of its own
 		if isDigit(raw[i]) && hasSuffixFold(raw[:i], "content-length: ") {
 			var v uint64
-			for j := i; j < len(raw) && isDigit(raw[j]) && v < 1<<40; j++ {
+			for j := i; j < len(raw) && v < 1<<40; j++ {
+				if raw[j] == '\r' && j+1 < len(raw) && raw[j+1] != '\n' {
+					continue // a bare CR inside the number is skipped by the server's parser
+				}
+				if !isDigit(raw[j]) {
+					break
+				}
 				v = v*10 + uint64(raw[j]-'0')
 			}
 			if v > worst {
@@ -422,7 +429,8 @@ func declaredBody(raw []byte) uint64 {
 					v = v<<4 | uint64(c-'A'+10)
 				}
 			}
-			if j < len(raw) && (raw[j] == '\r' || raw[j] == ';') && v > worst {
+			// the server reads the leading hex digits of a chunk-size line whatever follows
+			if v > worst && v < 1<<32 && chunked {
 				worst = v
 			}
 		}
@@ -492,6 +500,9 @@ func allocSite(e *ev.Env, c *ev.Case, mk func() *fiber.App, input []byte, limit,
 				break
 			}
 			off += i + len(name)
+			for off < len(input) && (input[off] == ' ' || input[off] == '\r' || input[off] == '"' || input[off] == '\t') {
+				off++
+			}
 			if off < len(input) {
 				if b := input[off]; b == 0xdc || b == 0xdd || b&0xf0 == 0x90 {
 					best = "flash-cookie-array-header"
@@ -547,24 +558,28 @@ func judgeStream(e *ev.Env, c *ev.Case, cfg string, input, out []byte) ([]*stric
 	return rs, true
 }
 
-// flashCookieBytes classifies the bytes of the flash cookie value in the first response of b
-// ("" when there is none or it carries no control byte).
+// flashCookieBytes classifies the bytes of the flash cookie values in b: the worst class over all
+// flash Set-Cookie lines ("" when there is none or none carries a control byte).
 func flashCookieBytes(b []byte) string {
 	start := []byte("Set-Cookie: " + fiber.FlashCookieName + "=")
-	i := bytes.Index(b, start)
-	if i < 0 {
-		return ""
+	rank := map[string]int{"": 0, "none": 0, "other-CTL": 1, "NUL": 2, "CR": 3, "LF": 4, "CRLF": 5}
+	worst := ""
+	for {
+		i := bytes.Index(b, start)
+		if i < 0 {
+			return worst
+		}
+		v := b[i+len(start):]
+		b = v
+		if j := bytes.Index(v, []byte("; path=/; SameSite=Lax\r\n")); j >= 0 {
+			v = v[:j]
+		} else if j := bytes.Index(v, []byte("\r\n\r\n")); j >= 0 {
+			v = v[:j]
+		}
+		if cls := byteClass(string(v)); rank[cls] > rank[worst] {
+			worst = cls
+		}
 	}
-	v := b[i+len(start):]
-	if j := bytes.Index(v, []byte("; path=/; SameSite=Lax\r\n")); j >= 0 {
-		v = v[:j]
-	} else if j := bytes.Index(v, []byte("\r\n\r\n")); j >= 0 {
-		v = v[:j]
-	}
-	if cls := byteClass(string(v)); cls != "none" {
-		return cls
-	}
-	return ""
 }
 
 func finals(rs []*strict.Response) []*strict.Response {
